@@ -64,6 +64,17 @@ def handle : List String → String
           "q:" ++ ",".intercalate (cs.map (fun w => hexOfString (String.ofList (shlexQuote w)))) ++ " parse:" ++
             showWords (parseCmd .unq (joinSp (cs.map shlexQuote)) [] [])
       | none => "bad-op"
+  | ["redir", a, b, c] =>
+      match optHex a, optHex b, optHex c with
+      | some i, some o, some e =>
+          let toks := sfSuffix (i.map String.toList) (o.map String.toList) (e.map String.toList)
+          let sh := fun (x : Option (List Char)) => match x with | some l => hexOfString (String.ofList l) | none => "~"
+          "suffix:" ++ hexOfString (String.ofList (renderSuffix toks)) ++ " streams:" ++
+            (match interpSuffix toks noStreams with
+             | some s => sh s.stdin ++ "," ++ sh s.stdout ++ "," ++
+                 (match s.stderr with | .inherit => "inherit" | .toStdout => "stdout" | .file f => "file=" ++ hexOfString (String.ofList f))
+             | none => "none")
+      | _, _, _ => "bad-op"
   | ["env", h] =>
       match stringOfHex h with
       | some v => "parse:" ++ showWords (parseCmd .unq (envRender v.toList) [] [])
